@@ -48,6 +48,8 @@ theorem trackChild_sad (base : List Key) (a p : Bytes) (c : Child) : Keeps (SadI
   simp only
   split
   · exact ⟨h1, h2, h3, h4, h5⟩
+  split
+  · exact ⟨h1, h2, h3, h4, h5⟩
   · split
     · exact ⟨h1, h2, h3, h4, h5⟩
     · rename_i hno hni
@@ -334,6 +336,8 @@ theorem trackChild_ops (sad0 : List Key) (c : Child) : Keeps (OpsI sad0) (trackC
   unfold trackChild
   simp only
   split
+  · exact h
+  split
   · simp only [OpsI, List.foldl_append, List.foldl_cons, List.foldl_nil, applyNl] at h ⊢
     exact h
   · rename_i hno
@@ -574,7 +578,9 @@ theorem modSlot_n (sl) (f : XSa → XSa) (hf : ∀ x, (f x).core.st = x.core.st)
 theorem trackChild_succ (k : Child) (s : HSt) : (trackChild k s).2.succ = s.succ := by
   unfold trackChild; simp only; split
   · rfl
-  · split <;> rfl
+  · split
+    · rfl
+    · split <;> rfl
 theorem untrackChild_succ (k : Child) (s : HSt) : (untrackChild k s).2.succ = s.succ := by
   unfold untrackChild; split <;> rfl
 @[keepsN13] theorem trackChild_n (k) : Keeps N13 (trackChild k) := by
